@@ -91,7 +91,11 @@ RULE = ("E2: breadth-first search over ALL operation histories on a real behave.
         "inner raising cleanup / with a generator fixture / setting+deleting an attribute, sets an attribute} in every "
         "frame of 4 stack shapes, and every sequence of <= 3 of those kinds + execute_steps in the testrun / feature / "
         "rule / scenario scope of a real ModelRunner run (LIFO exactly-once log, error raised iff some cleanup raised, "
-        "first error, stack restored, owner status and verdict). Nested execute_steps in real runs: nesting depth 1..3 x "
+        "first error, stack restored, owner status and verdict). Format-hostile text: 2..3 cleanups of one form in the "
+        "innermost frame of 4 stack shapes x every non-empty raising subset x exception message in {plain, '{}', '{0}', "
+        "'{x}', '}', '{', '%s', '%d %(a)s', '100%', non-ASCII, a dict repr} x cleanup callable {def, __name__ with "
+        "braces, __name__ with percent signs, functools.partial, callable object, lambda} x {default, custom} "
+        "on_cleanup_error; the raising cleanups of the real runs carry these messages in turn. Nested execute_steps in real runs: nesting depth 1..3 x "
         "the step at every level carrying {text, table, both, none} (distinct values per level, a sibling sub-step with "
         "other data before each nested call) x innermost sub-step {passes, fails, raises}: every step sees its own "
         "text/table, every caller sees its own again after execute_steps() returns or raises, every after_step hook sees "
@@ -1243,8 +1247,52 @@ def fx_e3(context, log, raising, i):
         raise raising[i]
 
 
+# text that user code controls and behave prints or formats (the default on_cleanup_error handler reports
+# the function name and the exception text) ranges over format-hostile values
+MESSAGES = (u"plain", u"{}", u"{0}", u"{x}", u"}", u"{", u"%s", u"%d %(a)s", u"100%", u"caf\u00e9 \u2603 \u00df",
+            u"rejected payload: {'id': 7}")
+NAME_KINDS = ("def", "name-with-braces", "name-with-percent", "partial", "object", "lambda")
+
+
+def text_class(text):
+    if u"{" in text or u"}" in text:
+        return "braces"
+    if u"%" in text:
+        return "percent"
+    if any(ord(c) > 127 for c in text):
+        return "non-ascii"
+    return "plain"
+
+
+def hostile_cases():
+    """(shape, regs, raising mask, handler, message index, name kind index): 2..3 cleanups of one form in
+    the innermost frame, every non-empty raising subset, every message, both handlers; the name kinds
+    apply to the plain form (the handler receives the registered callable itself)"""
+    for si in range(len(SHAPES)):
+        top = len(SHAPES[si]) - 1
+        for n in (2, 3):
+            for form in FORMS + ("fx",):
+                regs = ((top, "cur", form),) * n
+                for ni in (range(len(NAME_KINDS)) if form == "plain" else (0,)):
+                    for mask in range(1, 1 << n):
+                        for handler in ("default", "custom"):
+                            for mi in range(len(MESSAGES)):
+                                yield (si, regs, mask, handler, mi, ni)
+
+
+class _CallableCleanup(object):
+    """a cleanup that is a callable object (no __name__)"""
+
+    def __init__(self, body, i):
+        self.body, self.i = body, i
+
+    def __call__(self):
+        self.body(self.i)
+
+
 def e3_case(case):
-    """(shape, regs, custom_upto) -> one result per (raising subset, handler); (shape, regs, mask, handler) -> one"""
+    """(shape, regs, custom_upto) -> one result per (raising subset, handler); (shape, regs, mask, handler) -> one;
+    (shape, regs, mask, handler, message, name kind) -> one with format-hostile text"""
     if len(case) == 3:
         si, regs, custom_upto = case
         n = len(regs)
@@ -1258,13 +1306,15 @@ def e3_case(case):
         return _e3_one(*case)
 
 
-def _e3_one(si, regs, mask, handler):
+def _e3_one(si, regs, mask, handler, mi=None, ni=None):
     from behave.fixture import use_fixture
+    import functools
     shape = SHAPES[si]
     env = Env(handler=False)
     ctx = env.ctx
     log, hlog = [], []
-    raising = {i: Boom("c%d" % i) for i in range(len(regs)) if mask >> i & 1}
+    raising = {i: Boom("c%d" % i if mi is None else MESSAGES[mi]) for i in range(len(regs)) if mask >> i & 1}
+    name_kind = NAME_KINDS[ni] if ni is not None else "def"
     if handler == "custom":
         def on_err(context, func, exc):
             hlog.append(exc)
@@ -1286,6 +1336,16 @@ def _e3_one(si, regs, mask, handler):
                 log.append(i_)
                 if i_ in raising:
                     raise raising[i_]
+            if name_kind == "name-with-braces":
+                f0.__name__ = "{x} {0} }"
+            elif name_kind == "name-with-percent":
+                f0.__name__ = "%s %(a)s 100%"
+            elif name_kind == "partial":
+                f0 = functools.partial(f0, i)
+            elif name_kind == "object":
+                f0 = _CallableCleanup(f0, i)
+            elif name_kind == "lambda":
+                f0 = (lambda g: (lambda: g()))(f0)
             ctx.add_cleanup(f0, **kw)
         elif form == "args":
             ctx.add_cleanup(f, i, **kw)
@@ -1298,6 +1358,9 @@ def _e3_one(si, regs, mask, handler):
     case = (si, regs, mask, handler)
     where = "layers %r, registrations %r, raising %r, %s handler" % (
         shape, regs, sorted(raising), handler)
+    if mi is not None:
+        case = (si, regs, mask, handler, mi, ni)
+        where += ", exception message %r, cleanup callable kind %s" % (MESSAGES[mi], name_kind)
     for d in range(len(shape) - 1, -1, -1):
         n0, h0 = len(log), len(hlog)
         exc = None
@@ -1346,12 +1409,26 @@ def _e3_one(si, regs, mask, handler):
         if not v:
             v.append(({"subcheck": "raising-subsets", "clause": "exactly-once"},
                       "%s: run counts %r" % (where, [log.count(i) for i in range(len(regs))])))
+    if mi is not None and v:
+        # one descriptor per violated clause and class of hostile text (not per registration form)
+        mc = text_class(MESSAGES[mi])
+        remapped, seen_d = [], set()
+        for d, msg in v:
+            nd = {"subcheck": "hostile-text", "clause": d["clause"], "handler": handler, "message": mc}
+            if mc == "plain":
+                nd["name"] = name_kind
+            key = tuple(sorted(nd.items()))
+            if key not in seen_d:
+                seen_d.add(key)
+                remapped.append((nd, msg))
+        v = remapped
     nt = None
     per_frame = [[i for i in e] for e in expected]
     if any(len(e) >= 2 and any(i in raising for i in e) and any(i not in raising for i in e) for e in per_frame):
-        nt = keydigest((si, regs, mask))
+        nt = keydigest((si, regs, mask, mi, ni))
     return {"v": v, "dg": obs, "nt": nt, "case": case,
-            "out": ("e3", tuple(o[2] for o in obs), len(regs))}
+            "out": ("e3", tuple(o[2] for o in obs), len(regs)) if mi is None else
+                   ("hostile-text", text_class(MESSAGES[mi]), name_kind, handler, tuple(o[2] for o in obs))}
 
 
 # =============================================================================
@@ -1421,7 +1498,7 @@ class RunRec(object):
     def cleanup(self, k, tag):
         self.events.append(("cleanup", k, tag))
         if k in self.raising:
-            raise Boom("cleanup %d %s" % (k, tag))
+            raise Boom(u"cleanup %d %s: %s" % (k, tag, MESSAGES[k % len(MESSAGES)]))
 
     def fixture(self, context, k):
         yield k
@@ -2241,6 +2318,9 @@ def run(ctx):
     ctx.sweep(e3_case, e3_cases(maxn, custom_upto), chunk=16, name="raising subsets of <= %d registrations" % maxn)
     bounds["raising_subsets"] = {"registrations": maxn, "stack_shapes": len(SHAPES), "subsets": "all",
                                  "custom_error_handler_up_to": custom_upto}
+    ctx.sweep(e3_case, hostile_cases(), chunk=64,
+              name="format-hostile exception messages / cleanup names x both error handlers")
+    bounds["hostile_text"] = {"messages": list(MESSAGES), "callable_kinds": list(NAME_KINDS)}
     # ---- re-entrant cleanups
     re_n = 3 if quick else 4
     ctx.sweep(reentrant_case, reentrant_cases(re_n), chunk=64, name="re-entrant cleanups: <= %d per layer, all orders" % re_n)
